@@ -194,14 +194,18 @@ theorem protG_step {c : Cfg} {s : St} {g : Ghost} (hp : ProtG c s g) (op : Op) (
           simp only [ghostStepP, putAckOf]
           exact protG_ack (s := { vols := _, now := s.now, rr := s.rr }) h1 h (holdsG_after_touch hv hro hf hgood)
         · split
-          · rename_i w hw
-            have hwm : w ∈ writables s.vols := List.mem_of_getElem? hw
-            obtain ⟨hv, _⟩ := mem_writables hwm
-            have h1 : ProtG c { vols := s.vols.map (fun x => if x.id = w.id then x.write h s.now else x),
-                                now := s.now, rr := s.rr + 1 } g :=
-              protG_map hp _ _ _ (Nat.le_refl _) (fun h' t hg _ x _ => keepsG_if (keepsG_write h h' t s.now x (hle h' t hg)))
-            simp only [ghostStepP, putAckOf]
-            exact protG_ack (s := { vols := _, now := s.now, rr := s.rr + 1 }) h1 h (holdsG_after_write hv)
+          · rename_i w0 hw0
+            split
+            · rename_i w hw
+              have hwm : w ∈ writables s.vols := pickTarget_mem (List.mem_of_getElem? hw0) hw
+              obtain ⟨hv, _⟩ := mem_writables hwm
+              have h1 : ProtG c { vols := s.vols.map (fun x => if x.id = w.id then x.write h s.now else x),
+                                  now := s.now, rr := s.rr + 1 } g :=
+                protG_map hp _ _ _ (Nat.le_refl _) (fun h' t hg _ x _ => keepsG_if (keepsG_write h h' t s.now x (hle h' t hg)))
+              simp only [ghostStepP, putAckOf]
+              exact protG_ack (s := { vols := _, now := s.now, rr := s.rr + 1 }) h1 h (holdsG_after_write hv)
+            · simp only [ghostStepP, putAckOf]
+              exact hp
           · simpa [ghostStepP, putAckOf] using hp
   | touch h =>
     simp only [step]
